@@ -21,6 +21,21 @@ CLAIMED = {
          "DESIGN.md §4 C07"),
 }
 
+CLAIMED["C06"] = ("Proof (deductive, all inputs): the NAS COUNT type is verified against observer-level contracts for every 32-bit raw state; "
+  "tglib.NASEncode is proved per return path against the statement's envelope (header, SQN octet = COUNT mod 256, body ciphered only under header types 2/4 with "
+  "128-NEA1/NEA2 keystream BEARER=1 DIRECTION=uplink, MAC = 128-NIA1/NIA2 over SQN||body, ULCount' = COUNT+1 mod 2^24, reset on new context, unchanged without a context).",
+  "Trusted: govc VC generator, go/ssa, SMT solvers; the plain NAS encoder is an abstract deterministic byte string here (C08/C09). "
+  "NASEncrypt/NASMacCalculate are used through their contracts, which are themselves proved under C07.",
+  "DESIGN.md §4 C06")
+CLAIMED["C10"] = ("Proof (deductive, all inputs): tglib.NASDecode is proved against the statement: header types 0..4, DL COUNT estimate (overflow incremented on SQN wrap, reset by new-context headers), "
+  "body handed to the plain decoder is the received body deciphered with DIRECTION=downlink only under header types 2/4; lemma: the estimate equals the AMF's COUNT whenever it is at most 255 ahead.",
+  "Trusted: govc, go/ssa, SMT solvers; the plain NAS decoder is abstract (ghost log of the bytes it is given). MAC verification result is not part of the claim (the code only logs a mismatch).",
+  "DESIGN.md §4 C10")
+CLAIMED["C15"] = ("Proof (deductive, all K/OP/RAND/SQN/AMF): milenageF1, milenageF2345, GenerateOPC, MilenageGenerate, Milenage_check, Milenage_auts and os_memcmp equal the TS 35.206 / TS 33.102 formulas "
+  "transcribed in /verif/spec/milspec (AES uninterpreted); check accepts iff MAC-A is f1 over the concealed SQN and the SQN is greater; AUTS round trip as lemma.",
+  "Trusted: govc, go/ssa, SMT solvers; AES-128 is an uninterpreted function; spec functions validated against TS 35.208 test set 1 natively.",
+  "DESIGN.md §4 C15")
+
 PENDING = {
 }
 
